@@ -305,7 +305,12 @@ fn same_shape_random(t: &Tensor, rng: &mut Rng) -> Tensor {
     use neurons::tensor::Data;
     let mut r = t.clone();
     fn fill(d: &mut Data, rng: &mut Rng) {
-        let mut f = |x: &mut f32| *x = (rng.unit() - 0.5) * 8.0 + if rng.below(7) == 0 { 1.0e-3 } else { 0.0 };
+        // ordinary magnitudes, and now and then a finite value that is awkward: zeros of both signs, subnormals, values
+        // whose sum or product overflows ("all finite contents")
+        const AWKWARD: [f32; 10] = [0.0, -0.0, 1.0e-40, -1.0e-40, 3.0e38, -3.0e38, 1.0e-30, -7.0e-25, 16777217.0, 0.1];
+        let mut f = |x: &mut f32| {
+            *x = if rng.below(9) == 0 { AWKWARD[rng.below(10) as usize] } else { (rng.unit() - 0.5) * 8.0 + if rng.below(7) == 0 { 1.0e-3 } else { 0.0 } }
+        };
         match d {
             Data::Single(a) => a.iter_mut().for_each(&mut f),
             Data::Double(a) => a.iter_mut().flatten().for_each(&mut f),
@@ -403,8 +408,12 @@ pub fn replay_arith(case: &Value, rep: &mut Report, rng: &mut Rng) {
                             .map(|k| native(op, a[k], &bs.iter().map(|b| b[k]).collect::<Vec<f32>>(), &step["extra"]))
                             .collect();
                         rep.checks += 1;
-                        if let Some(d) = diff_flat_exact(&flat(&fr), &want) {
-                            rep.mismatch("C15", "float_value", &id, json!({"step": i, "op": op, "diff": d}), case);
+                        // bit for bit (the sign of a zero included)
+                        let got = flat(&fr);
+                        let bad = if got.len() != want.len() { Some(0) } else { (0..got.len()).find(|k| got[*k].to_bits() != want[*k].to_bits() && !(got[*k].is_nan() && want[*k].is_nan())) };
+                        if let Some(k) = bad {
+                            rep.mismatch("C15", "float_value", &id, json!({"step": i, "op": op, "element": k, "observed": got.get(k).map(|v| format!("{:e}", v)), "expected": want.get(k).map(|v| format!("{:e}", v)),
+                                                                            "operand": a.get(k).map(|v| format!("{:e}", v))}), case);
                             return;
                         }
                         if shape_dims(&fr.shape) != shape_dims(&fa.shape) {
